@@ -99,3 +99,6 @@ let txta (toks : string list) : string =
   | _ -> failwith "txta: bad case"
 
 let () = register "txt" txt; register "txtf" txtf; register "txta" txta
+(* txtfa / txtaa: same model output; the harness appends the measured allocation (the text reader requests no field-sized
+   buffer: strings grow byte by byte while bytes exist) *)
+let () = register "txtfa" txtf; register "txtaa" txta
